@@ -108,6 +108,10 @@ _add(PF("mi_spec6", _limbs(M64, M64, M64, 0x8000000000000021), 4, "modint", MODI
 # BLS12-381 scalar field (q = 1 mod 2^32: low limb 1; sqrt is Tonelli-Shanks territory, q % 8 == 1)
 _add(PF("mi_bls", 0x73eda753299d7d483339d80809a1d80553bda402fffe5bfeffffffff00000001, 4, "modint", MODINT_CAPS, 32))
 _add(PF("mi_193", (1 << 192) + 133, 4, "modint", MODINT_CAPS, 25))
+# 194-bit primes with top limb 2: n mod 2^192 tiny (sparse), generic (dense) and huge (just below 3*2^192)
+_add(PF("mi_194s", 0x20000000000002000000000000000000009c1bbf90735c9d7, 4, "modint", MODINT_CAPS, 25))
+_add(PF("mi_194d", 0x2d77a0cb424b63937ea0cf04256be1d9701434be3ebf87f35, 4, "modint", MODINT_CAPS, 25))
+_add(PF("mi_194h", 0x2ffffffffffffffffffffffefffffffffffffffe479b4df7d, 4, "modint", MODINT_CAPS, 25))
 _add(PF("g127", (1 << 127) - 1, 2, "gfgen", GFGEN_CAPS, 16))
 _add(PF("g192", (1 << 192) - (1 << 64) - 1, 3, "gfgen", GFGEN_CAPS, 24))
 _add(PF("g256", NP256, 4, "gfgen", GFGEN_CAPS, 32))
